@@ -231,7 +231,7 @@ func (m *MeasureModel) pickSeries(tp *simcore.Tape, maxSeries int) string {
 			}
 			for _, t := range m.S.Tags {
 				if t.Indexed {
-					vals[t.Name] = GenTag(tp, t.Type, false)
+					vals[t.Name] = PlainTag(tp, t.Type)
 				}
 			}
 			m.series[k] = vals
@@ -251,6 +251,7 @@ type BatchOpts struct {
 	Collide    bool // allow (series, ts) collisions with explicit versions (C02)
 	NullOK     bool
 	NoHot      bool
+	Plain      bool // small-domain, never-null, never-empty tag values (criteria workloads)
 	FixedTimes []int64
 }
 
@@ -320,7 +321,11 @@ func (m *MeasureModel) GenBatch(tp *simcore.Tape, o BatchOpts, batchNo int) []*M
 			case t.Name == "wid":
 				r.Tags[t.Name] = TInt(r.Wid)
 			default:
-				r.Tags[t.Name] = GenTag(tp, t.Type, o.NullOK)
+				if o.Plain {
+					r.Tags[t.Name] = PlainTag(tp, t.Type)
+				} else {
+					r.Tags[t.Name] = GenTag(tp, t.Type, o.NullOK)
+				}
 			}
 		}
 		for _, f := range m.S.Fields {
